@@ -329,6 +329,10 @@ func ruleRangeChannelDirection(c *Ctx, rule string) {
 						inBody = true
 					}
 				}
+				// a loop built by a builder helper and read at its call site: the body's templates hang below this very site
+				if r.inst && under(s, r, "Body") {
+					inBody = true
+				}
 				if !inBody {
 					continue
 				}
@@ -4748,7 +4752,7 @@ func ruleAliasSpelledAsDeclared(c *Ctx, rule string) {
 			flow(cs.value(), 0)
 		}
 	}
-	c.floor(rule, "functions that print types or collect their imports", nSinks, 2)
+	c.floor(rule, "functions that print types or collect their imports", nSinks, 1)
 	c.ok(rule, "no resolved alias reaches a type printer", fmt.Sprintf("%d alias resolutions inspected, %d printers", nSrc, nSinks))
 }
 
@@ -4862,4 +4866,689 @@ func readinessKeyOfFirstNode(L *Loaded, v ssa.Value) bool {
 		}
 	}
 	return false
+}
+
+// ruleChanDirMapping: a channel type is printed with its own direction. Wherever a go/ast.ChanType gets its Dir from the
+// Dir() of a go/types.Chan, the three directions are told apart and mapped to their go/ast counterparts: SendRecv ->
+// SEND|RECV, SendOnly -> SEND, RecvOnly -> RECV (a `<-chan T` requirement declared as `chan T` changes the injector's
+// signature for its callers although the generated body still compiles). Decided by walking the branches on the Dir()
+// value for each of the three constants - in the function or in a helper the value is handed to; other shapes (a table
+// lookup) are left to the "Dir is consulted" rule.
+func ruleChanDirMapping(c *Ctx, rule string, pkgs ...string) {
+	L := c.L
+	want := map[int64]int64{0: 3, 1: 1, 2: 2}
+	// image computes what v is when d has the given value, starting at block start; ok=false when the shape is not decided
+	var image func(fn *ssa.Function, start *ssa.BasicBlock, d ssa.Value, dv int64, v ssa.Value, depth int) (int64, bool)
+	image = func(fn *ssa.Function, start *ssa.BasicBlock, d ssa.Value, dv int64, v ssa.Value, depth int) (int64, bool) {
+		vals := map[ssa.Value]int64{}
+		var look func(x ssa.Value) (int64, bool)
+		look = func(x ssa.Value) (int64, bool) {
+			if k, ok := vals[x]; ok {
+				return k, true
+			}
+			switch y := x.(type) {
+			case *ssa.Const:
+				return constInt(y)
+			case *ssa.Convert:
+				return look(y.X)
+			case *ssa.ChangeType:
+				return look(y.X)
+			case *ssa.BinOp:
+				a, okA := look(y.X)
+				b, okB := look(y.Y)
+				if okA && okB {
+					switch y.Op {
+					case token.OR:
+						return a | b, true
+					case token.ADD:
+						return a + b, true
+					}
+				}
+			case *ssa.Call:
+				if x == d {
+					return dv, true
+				}
+				h := y.Common().StaticCallee()
+				if h != nil && len(h.Blocks) > 0 && depth < 2 && h.Pkg == fn.Pkg {
+					for i, a := range y.Common().Args {
+						if a == d && i < len(h.Params) {
+							return image(h, h.Blocks[0], h.Params[i], dv, nil, depth+1)
+						}
+					}
+				}
+			}
+			if x == d {
+				return dv, true
+			}
+			return 0, false
+		}
+		cur, prev := start, (*ssa.BasicBlock)(nil)
+		for steps := 0; steps < 64 && cur != nil; steps++ {
+			for _, in := range cur.Instrs {
+				if ph, ok := in.(*ssa.Phi); ok && prev != nil {
+					for k, p := range cur.Preds {
+						if p == prev {
+							if val, ok := look(ph.Edges[k]); ok {
+								vals[ph] = val
+							}
+						}
+					}
+				}
+			}
+			if len(cur.Instrs) == 0 {
+				break
+			}
+			var next *ssa.BasicBlock
+			switch t := cur.Instrs[len(cur.Instrs)-1].(type) {
+			case *ssa.Jump:
+				next = cur.Succs[0]
+			case *ssa.If:
+				bo, ok := t.Cond.(*ssa.BinOp)
+				if !ok || (bo.Op != token.EQL && bo.Op != token.NEQ) {
+					break
+				}
+				a, okA := look(bo.X)
+				b, okB := look(bo.Y)
+				if !okA || !okB {
+					break
+				}
+				if (a == b) == (bo.Op == token.EQL) {
+					next = cur.Succs[0]
+				} else {
+					next = cur.Succs[1]
+				}
+			case *ssa.Return:
+				if v == nil && len(t.Results) >= 1 {
+					return look(t.Results[0])
+				}
+			}
+			if next == nil {
+				break
+			}
+			prev, cur = cur, next
+		}
+		if v == nil {
+			return 0, false
+		}
+		return look(v)
+	}
+	n, decided := 0, 0
+	for _, st := range storesToField(pkgFuncs(L, pkgs...), "go/ast.ChanType.Dir") {
+		fn := st.Parent()
+		// the Dir() value this store depends on: the call in the same function
+		var d *ssa.Call
+		for _, cs := range callsIn(fn) {
+			if cs.callee == "(*go/types.Chan).Dir" && cs.value() != nil {
+				d = cs.value()
+			}
+		}
+		if d == nil {
+			continue
+		}
+		n++
+		c.seen(fnName(fn))
+		bad, undec := "", false
+		for _, dv := range []int64{0, 1, 2} {
+			got, ok := image(fn, d.Block(), d, dv, st.Val, 0)
+			if !ok {
+				undec = true
+				break
+			}
+			if got != want[dv] {
+				bad = fmt.Sprintf("types.ChanDir %d is printed as ast.ChanDir %d, want %d", dv, got, want[dv])
+			}
+		}
+		if undec {
+			c.ok(rule, fnName(fn)+": channel direction mapping has a shape this rule does not decide", "left to the rule that Dir() is consulted")
+			continue
+		}
+		decided++
+		c.check(bad == "", rule, fnName(fn)+":chan-direction-mapping", L.pos(st.Pos()), "SendRecv, SendOnly and RecvOnly are printed as chan, chan<- and <-chan", bad)
+	}
+	c.floor(rule, "channel types built from a go/types.Chan", n, 1)
+}
+
+// ruleProvidersInDeclOrder: NewGraph processes providers in the order of the declaration. The struct-expansion pass asks
+// for the source of each Struct[T] before it registers T's fields as suppliers, so a nested expansion (Struct[*Outer]
+// whose field is the source of Struct[*Inner]) is accepted only when the outer struct is expanded first - the order in
+// which the user listed them. No list of providers is sorted, reversed or otherwise permuted in NewGraph.
+func ruleProvidersInDeclOrder(c *Ctx, rule string) {
+	L := c.L
+	ng := genFn(c, rule, "NewGraph")
+	if ng == nil {
+		return
+	}
+	n := 0
+	for _, fn := range family(L, ng) {
+		for _, cs := range callsIn(fn) {
+			if len(cs.common.Args) == 0 {
+				continue
+			}
+			permutes := strings.HasPrefix(cs.callee, "sort.") || strings.HasPrefix(cs.callee, "slices.Sort") || cs.callee == "slices.Reverse" || strings.HasPrefix(cs.callee, "math/rand.Shuffle")
+			if !permutes {
+				continue
+			}
+			n++
+			at := cs.common.Args[0].Type().String()
+			if mi, ok := cs.common.Args[0].(*ssa.MakeInterface); ok {
+				at = mi.X.Type().String()
+			}
+			c.check(!strings.Contains(at, genPkg+".ProviderSpec"), rule, fnName(ng)+":providers-in-declaration-order", L.pos(cs.instr.Pos()),
+				"providers are expanded and registered in declaration order (nested Struct expansions rely on it)", cs.callee+" on "+at)
+		}
+	}
+	c.ok(rule, "no provider list is permuted in NewGraph", fmt.Sprintf("%d sorting calls inspected", n))
+}
+
+// ruleCallerAppendsSyncPoolsOnly: besides the one pool chosen as the caller's lane (ruleCallerLaneChoice), a pool's statements
+// are appended to the caller's thread only on the "not Async" side of the test of that pool's first provider. A pool
+// headed by an Async provider that is appended to the caller's list runs after everything already there instead of
+// beside it - two input-free Async providers then run one after the other.
+func ruleCallerAppendsSyncPoolsOnly(c *Ctx, rule string) {
+	L := c.L
+	bs := genFn(c, rule, "(*Graph).buildStmts")
+	bps := resolveRole(c, genPkg, "(*Graph).buildPoolStmtsSimple")
+	if bs == nil || bps == nil {
+		return
+	}
+	n := 0
+	for _, fn := range chainBuilders(L, bs) {
+		for _, cs := range callsIn(fn) {
+			bi, ok := cs.common.Value.(*ssa.Builtin)
+			if !ok || bi.Name() != "append" || len(cs.common.Args) != 2 {
+				continue
+			}
+			if _, isLit := variadicElems(cs.common.Args[1]); isLit {
+				continue
+			}
+			ex, ok := resolve(cs.common.Args[1]).(*ssa.Extract)
+			if !ok || ex.Index != 0 {
+				continue
+			}
+			call, ok := ex.Tuple.(*ssa.Call)
+			if !ok || call.Common().StaticCallee() != bps || len(call.Common().Args) < 2 {
+				continue
+			}
+			n++
+			s := newSym(L, map[string]bool{})
+			s.maxD = 0
+			poolTerms := s.eval(call.Common().Args[1])
+			guarded, seen := false, []string{}
+			for _, iff := range controllingIfs(cs.instr) {
+				s2 := newSym(L, map[string]bool{})
+				s2.maxD = 0
+				term := strings.Join(s2.eval(iff.Cond), "|")
+				if !strings.Contains(term, "field:internal/kessoku.ProviderSpec.IsAsync(field:internal/kessoku.node.providerSpec(index(") {
+					continue
+				}
+				same := false
+				for _, pt := range poolTerms {
+					if strings.Contains(term, pt) {
+						same = true
+					}
+				}
+				seen = append(seen, term)
+				// on the false side: dominated by the else successor, not by the then successor
+				els, thn := iff.Block().Succs[1], iff.Block().Succs[0]
+				neg := false
+				if u, isU := iff.Cond.(*ssa.UnOp); isU && u.Op == token.NOT {
+					neg = true
+				}
+				if neg {
+					els, thn = thn, els
+				}
+				if same && els.Dominates(cs.instr.Block()) && !thn.Dominates(cs.instr.Block()) {
+					guarded = true
+				}
+			}
+			c.check(guarded, rule, fnName(bs)+":caller-appends-sync-pools-only", L.pos(cs.instr.Pos()),
+				"a pool is appended to the caller's statements only when its first provider is not Async", fmt.Sprintf("IsAsync tests on the way: %v", seen))
+		}
+	}
+	c.floor(rule, "whole pools appended to the caller's list in buildStmts", n, 1)
+}
+
+// ruleDoneCaseLeaves: a wait that can be abandoned (a select with a `<-ctx.Done()` case) is abandoned by leaving the
+// function: the clause that receives from Done() has a body, and that body is what the early-return builder produced (or
+// a literal list that contains a return). A Done() case that falls through runs the consumer although its producer has not
+// finished - the variable is read before the write that the close would have ordered.
+func ruleDoneCaseLeaves(c *Ctx, rule string) {
+	L := c.L
+	p := L.Pkgs[genPkg]
+	sites := collectTemplates(p)
+	n := 0
+	for _, s := range sites {
+		if s.kind != "SelectorExpr" {
+			continue
+		}
+		if sel, ok := identConst(p, s.fn, s.fields["Sel"]); !ok || sel != "Done" {
+			continue
+		}
+		n++
+		var clause *tmplSite
+		for q := s.parent; q != nil; q = q.parent {
+			if q.kind == "CaseClause" || q.kind == "CommClause" {
+				clause = q
+				break
+			}
+		}
+		if clause == nil {
+			c.undecided(rule, "template:done-case", "a Done() selector that does not sit in a select clause ("+s.fnName()+")")
+			continue
+		}
+		body := clause.fields["Body"]
+		ok, why := false, "the clause has no body: the wait falls through"
+		switch b := ast.Unparen(body).(type) {
+		case nil:
+		case *ast.CallExpr:
+			ok, why = true, "body built by "+exprString(b.Fun)
+			if id, isId := ast.Unparen(b.Fun).(*ast.Ident); isId {
+				if o := p.TypesInfo.Uses[id]; o != nil && !strings.Contains(o.Type().String(), "[]go/ast.Stmt") {
+					ok, why = false, "body is "+exprString(b)
+				}
+			}
+		case *ast.CompositeLit:
+			hasRet := false
+			for _, t := range sites {
+				if t.kind == "ReturnStmt" && t.lit.Pos() >= b.Pos() && t.lit.End() <= b.End() {
+					hasRet = true
+				}
+			}
+			ok, why = hasRet, fmt.Sprintf("literal body with %d statement(s), return inside: %v", len(b.Elts), hasRet)
+		default:
+			ok, why = true, "body is "+exprString(body)
+		}
+		c.check(ok, rule, "template:done-case-leaves:"+s.fnName(), L.pos(clause.lit.Pos()), "the ctx.Done() case of a wait returns from the function (it never falls through to the provider call)", why)
+	}
+	c.floor(rule, "Done() selector templates", n, 1)
+}
+
+// ruleNoCrossFilePositionOrder: nothing is ordered by the source positions of different files. go/packages parses the files
+// of a package concurrently and each file takes its range of the shared FileSet when its parse begins, so whether one
+// file's token.Pos is smaller than another's depends on scheduling, GOMAXPROCS and file sizes - an order derived from it
+// (which file's imports are named first) differs between runs. Flagged: an ordering comparison (<, <=, >, >=, cmp.Compare,
+// cmp.Less) of two token.Pos values that are positions of *ast.File nodes.
+func ruleNoCrossFilePositionOrder(c *Ctx, rule string) {
+	L := c.L
+	n := 0
+	isFilePos := func(v ssa.Value) bool {
+		if v.Type().String() != "go/token.Pos" {
+			return false
+		}
+		s := newSym(L, map[string]bool{})
+		s.maxD = 0
+		t := strings.Join(s.eval(v), "|")
+		return strings.Contains(t, "go/ast.File")
+	}
+	for _, fn := range pkgFuncs(L, genPkg) {
+		if fn.Parent() != nil {
+			continue // closures are visited through their parent
+		}
+		for _, w := range withClosures(fn) {
+			for _, b := range w.Blocks {
+				for _, in := range b.Instrs {
+					var x, y ssa.Value
+					switch t := in.(type) {
+					case *ssa.BinOp:
+						if t.Op == token.LSS || t.Op == token.LEQ || t.Op == token.GTR || t.Op == token.GEQ {
+							x, y = t.X, t.Y
+						}
+					case *ssa.Call:
+						if cal := t.Common().StaticCallee(); cal != nil && originOf(cal).Pkg != nil && originOf(cal).Pkg.Pkg.Path() == "cmp" && len(t.Common().Args) == 2 {
+							x, y = t.Common().Args[0], t.Common().Args[1]
+						}
+					}
+					if x == nil || x.Type().String() != "go/token.Pos" {
+						continue
+					}
+					n++
+					c.check(!(isFilePos(x) && isFilePos(y)), rule, fnName(w)+":files-ordered-by-position", L.pos(in.Pos()),
+						"files are never ordered by their positions in the FileSet (assigned in parse order, which is concurrent)", "comparison of the positions of two *ast.File nodes")
+				}
+			}
+		}
+	}
+	c.ok(rule, "no order is derived from the FileSet positions of different files", fmt.Sprintf("%d position comparisons inspected", n))
+}
+
+// ruleGenerateOncePerFile: Generate runs once per processed file. It draws names (err, err0, ...) from the allocator the
+// whole invocation shares, so a second rendering of the same file - a dry run to compare with, a retry - is not the same
+// text as the first; what is written then depends on whether the extra rendering happened, i.e. on what was on disk.
+// And nothing in the pipeline reads the previous output: the path computed by outputFileName is only ever created.
+func ruleGenerateOncePerFile(c *Ctx, rule string) {
+	L := c.L
+	gen := resolveRole(c, genPkg, "Generate")
+	if gen == nil {
+		c.undecided(rule, "Generate", "function not found")
+		return
+	}
+	var sites []callSite
+	for _, fn := range pkgFuncs(L, genPkg) {
+		for _, cs := range callsIn(fn) {
+			if cal := cs.common.StaticCallee(); cal != nil && originOf(cal) == gen {
+				sites = append(sites, cs)
+			}
+		}
+	}
+	where := []string{}
+	for _, cs := range sites {
+		where = append(where, L.pos(cs.instr.Pos()))
+	}
+	c.check(len(sites) == 1, rule, "internal/kessoku:Generate-called-once", "-", "the rendering of a file happens at one call site (each rendering takes fresh names from the shared allocator)", fmt.Sprintf("call sites: %v", where))
+	if len(sites) == 1 {
+		inLoop := reachable(sites[0].instr.Block(), sites[0].instr.Block()) && func() bool {
+			for _, s := range sites[0].instr.Block().Succs {
+				if reachable(s, sites[0].instr.Block()) {
+					return true
+				}
+			}
+			return false
+		}()
+		c.check(!inLoop, rule, "internal/kessoku:Generate-not-repeated", L.pos(sites[0].instr.Pos()), "the call is not repeated for one file", "call site inside a loop of its function")
+	}
+	n := 0
+	for _, fn := range pkgFuncs(L, genPkg) {
+		for _, cs := range callsIn(fn) {
+			switch cs.callee {
+			case "os.ReadFile", "os.Open", "os.Stat", "os.Lstat", "os.OpenFile", "os.ReadDir":
+			default:
+				continue
+			}
+			n++
+			s := newSym(L, map[string]bool{})
+			t := strings.Join(s.eval(cs.common.Args[0]), "|")
+			if cs.callee == "os.OpenFile" {
+				// opening the output for writing is the single-writer rule's business
+				continue
+			}
+			c.check(!strings.Contains(t, "outputFileName("), rule, fnName(fn)+":previous-output-read", L.pos(cs.instr.Pos()),
+				"the previous output is never consulted (the new one is a function of the sources alone)", cs.callee+"("+t+")")
+		}
+	}
+	c.ok(rule, "the output path is only created, never read", fmt.Sprintf("%d file-reading calls inspected", n))
+}
+
+// ruleProvidedCountPerDependency: findOptimalPool counts, per pool, how many of the node's dependency ENTRIES (one per
+// parameter - reverseEdges is a list with repetitions) the pool provides, and compares the best count with
+// len(dependencies) to decide "all inputs are in this lane". The two sites agree only while the count takes every entry:
+// in one pass over the list the counter is incremented exactly when the pool's provided-set holds the entry - no entry is
+// skipped for another reason (a de-duplication makes a node that takes two values of one producer never pass the test:
+// it is then scheduled beside its producer instead of behind it).
+func ruleProvidedCountPerDependency(c *Ctx, rule string) {
+	L := c.L
+	fn := genFn(c, rule, "(*Graph).findOptimalPool")
+	if fn == nil {
+		return
+	}
+	n := 0
+	for _, f := range family(L, fn) {
+		for _, b := range f.Blocks {
+			for _, in := range b.Instrs {
+				bo, ok := in.(*ssa.BinOp)
+				if !ok || bo.Op != token.ADD {
+					continue
+				}
+				if k, isC := constInt(bo.Y); !isC || k != 1 {
+					continue
+				}
+				if _, isPhi := bo.X.(*ssa.Phi); !isPhi || isRangeIndexIncrement(bo) {
+					continue
+				}
+				// the innermost loop around the increment
+				var hdr *ssa.BasicBlock
+				for d := b.Idom(); d != nil; d = d.Idom() {
+					isHeader := false
+					for _, pr := range d.Preds {
+						if d.Dominates(pr) {
+							isHeader = true
+						}
+					}
+					if isHeader && reachable(b, d) {
+						hdr = d
+						break
+					}
+				}
+				if hdr == nil {
+					continue
+				}
+				// branch conditions inside that loop's body that decide whether the increment runs
+				var conds []*ssa.If
+				for d := b.Idom(); d != nil && d != hdr; d = d.Idom() {
+					if iff, ok := d.Instrs[len(d.Instrs)-1].(*ssa.If); ok {
+						conds = append(conds, iff)
+					}
+				}
+				isProvidedTest := func(v ssa.Value) bool {
+					ex, ok := v.(*ssa.Extract)
+					if !ok || ex.Index != 1 {
+						return false
+					}
+					lk, ok := ex.Tuple.(*ssa.Lookup)
+					if !ok || !strings.Contains(lk.X.Type().String(), "map[*"+genPkg+".node]struct{}") {
+						return false
+					}
+					s := newSym(L, map[string]bool{})
+					s.maxD = 0
+					t := strings.Join(s.eval(lk.X), "|")
+					return strings.Contains(t, "param:")
+				}
+				guarded := false
+				extra := []string{}
+				for _, iff := range conds {
+					if isProvidedTest(iff.Cond) {
+						guarded = true
+						continue
+					}
+					s := newSym(L, map[string]bool{})
+					s.maxD = 0
+					extra = append(extra, strings.Join(s.eval(iff.Cond), "|"))
+				}
+				if !guarded {
+					continue
+				}
+				n++
+				c.check(len(extra) == 0, rule, fnName(fn)+":provided-count-takes-every-entry", L.pos(bo.Pos()),
+					"the per-pool count is incremented for every dependency entry the pool provides (it is compared with len(dependencies))", fmt.Sprintf("also decided by: %v", extra))
+			}
+		}
+	}
+	c.floor(rule, "membership-guarded counters in findOptimalPool", n, 1)
+}
+
+// isRangeIndexIncrement: i+1 of a loop index (the phi it feeds is compared with a length / used as an index).
+func isRangeIndexIncrement(bo *ssa.BinOp) bool {
+	ph, ok := bo.X.(*ssa.Phi)
+	if !ok || ph.Referrers() == nil {
+		return false
+	}
+	for _, r := range *ph.Referrers() {
+		switch x := r.(type) {
+		case *ssa.IndexAddr:
+			if x.Index == ssa.Value(ph) {
+				return true
+			}
+		case *ssa.Index:
+			if x.Index == ssa.Value(ph) {
+				return true
+			}
+		}
+	}
+	if bo.Referrers() != nil {
+		for _, r := range *bo.Referrers() {
+			switch x := r.(type) {
+			case *ssa.IndexAddr:
+				if x.Index == ssa.Value(bo) {
+					return true
+				}
+			case *ssa.BinOp:
+				if x.Op == token.LSS {
+					return true
+				}
+			}
+		}
+	}
+	return false
+}
+
+// ruleMatchingVisitedFreshPerRoot: the number of lanes is |nodes| minus a maximum matching, found by augmenting paths. Each
+// search from a new root starts with an empty visited set - the []bool handed to findAugmentingPath at the outer call is
+// made (or cleared) inside the loop over the roots. A set kept across roots hides augmenting paths that re-route earlier
+// matches: the matching comes out too small and a surplus lane is allocated, which turns a provider that HEAD queues behind
+// its producer into a goroutine of its own.
+func ruleMatchingVisitedFreshPerRoot(c *Ctx, rule string) {
+	L := c.L
+	fn := genFn(c, rule, "(*Graph).findMaximumAntichainSize")
+	aug := resolveRole(c, genPkg, "(*Graph).findAugmentingPath")
+	if fn == nil || aug == nil {
+		c.undecided(rule, "findAugmentingPath", "function not found")
+		return
+	}
+	innermost := func(b *ssa.BasicBlock) *ssa.BasicBlock {
+		for d := b; d != nil; d = d.Idom() {
+			isHeader := false
+			for _, pr := range d.Preds {
+				if d.Dominates(pr) {
+					isHeader = true
+				}
+			}
+			if isHeader && (d == b || reachable(b, d)) {
+				return d
+			}
+		}
+		return nil
+	}
+	n := 0
+	for _, f := range family(L, fn) {
+		if f == aug {
+			continue
+		}
+		for _, cs := range callsIn(f) {
+			if cs.common.StaticCallee() != aug {
+				continue
+			}
+			for _, a := range cs.common.Args {
+				if a.Type().String() != "[]bool" {
+					continue
+				}
+				n++
+				hdr := innermost(cs.instr.Block())
+				ok, why := false, "the visited set is "+describe(resolve(a))
+				if hdr == nil {
+					ok, why = true, "the search is not in a loop"
+				} else if ms, isM := resolve(a).(*ssa.MakeSlice); isM {
+					in := hdr.Dominates(ms.Block()) && reachable(ms.Block(), hdr) && ms.Block() != hdr
+					ok, why = in, fmt.Sprintf("made in block %d, loop header %d", ms.Block().Index, hdr.Index)
+					if !in {
+						// cleared per root instead
+						for _, cs2 := range callsIn(f) {
+							if bi, isB := cs2.common.Value.(*ssa.Builtin); isB && bi.Name() == "clear" && len(cs2.common.Args) == 1 && resolve(cs2.common.Args[0]) == ssa.Value(ms) &&
+								hdr.Dominates(cs2.instr.Block()) && instrDominates(cs2.instr, cs.instr) {
+								ok, why = true, "cleared before each search"
+							}
+						}
+					}
+				}
+				c.check(ok, rule, fnName(fn)+":visited-set-fresh-per-root", L.pos(cs.instr.Pos()), "every augmenting-path search starts with an empty visited set", why)
+			}
+		}
+	}
+	c.floor(rule, "outer calls of findAugmentingPath", n, 1)
+}
+
+// ruleContextInjectedOnEveryPath: when a scheduled provider is Async, injectContextArg leaves the injector with a context
+// argument on every successful path: a success return is reached only over (a) the edge "no Async provider", (b) the edge
+// "an argument of context type was found among injector.Args", or (c) the store that puts the new argument into
+// injector.Args. Any other way out (e.g. "a provider already builds a context") leaves goroutines without the derived
+// context: a failure in one lane never wakes the waiters of another.
+func ruleContextInjectedOnEveryPath(c *Ctx, rule string) {
+	L := c.L
+	fn := genFn(c, rule, "(*Graph).injectContextArg")
+	if fn == nil {
+		return
+	}
+	type edge struct{ from, to *ssa.BasicBlock }
+	sat := map[edge]bool{}
+	satBlock := map[*ssa.BasicBlock]bool{}
+	nGate, nFound, nStore := 0, 0, 0
+	for _, b := range fn.Blocks {
+		for _, in := range b.Instrs {
+			if st, ok := in.(*ssa.Store); ok {
+				if fa, isF := st.Addr.(*ssa.FieldAddr); isF && fieldKey(fa) == "internal/kessoku.Injector.Args" {
+					// the prepend, not the removal of the found argument
+					satBlock[b] = true
+					nStore++
+				}
+			}
+		}
+		if len(b.Instrs) == 0 {
+			continue
+		}
+		iff, ok := b.Instrs[len(b.Instrs)-1].(*ssa.If)
+		if !ok {
+			continue
+		}
+		cond, neg := iff.Cond, false
+		if u, isU := cond.(*ssa.UnOp); isU && u.Op == token.NOT {
+			cond, neg = u.X, true
+		}
+		if call, isCall := cond.(*ssa.Call); isCall && calleeIsFn(call, resolveRole(c, genPkg, "(*Graph).hasAsyncProviders")) {
+			// hasAsync == false edge
+			if neg {
+				sat[edge{b, b.Succs[0]}] = true
+			} else {
+				sat[edge{b, b.Succs[1]}] = true
+			}
+			nGate++
+			continue
+		}
+		if bo, isB := cond.(*ssa.BinOp); isB && (bo.Op == token.NEQ || bo.Op == token.EQL) && (isNilConst(bo.X) || isNilConst(bo.Y)) {
+			v := bo.X
+			if isNilConst(v) {
+				v = bo.Y
+			}
+			if strings.HasSuffix(v.Type().String(), genPkg+".InjectorArgument") {
+				found := (bo.Op == token.NEQ) != neg
+				if found {
+					sat[edge{b, b.Succs[0]}] = true
+				} else {
+					sat[edge{b, b.Succs[1]}] = true
+				}
+				nFound++
+			}
+		}
+	}
+	if nGate == 0 || nFound == 0 || nStore == 0 {
+		c.ok(rule, "injectContextArg: gate / found-test / store not all recognised; path rule not applied", fmt.Sprintf("gate=%d found=%d store=%d", nGate, nFound, nStore))
+		return
+	}
+	// a success return reachable from the entry without a satisfying edge or block
+	seen := map[*ssa.BasicBlock]bool{}
+	var bad *ssa.Return
+	var walk func(b *ssa.BasicBlock)
+	walk = func(b *ssa.BasicBlock) {
+		if seen[b] || satBlock[b] || bad != nil {
+			return
+		}
+		seen[b] = true
+		if r, ok := b.Instrs[len(b.Instrs)-1].(*ssa.Return); ok && returnsNilError(r) {
+			bad = r
+			return
+		}
+		for _, s := range b.Succs {
+			if !sat[edge{b, s}] {
+				walk(s)
+			}
+		}
+	}
+	walk(fn.Blocks[0])
+	pos := "-"
+	if bad != nil {
+		pos = L.pos(bad.Pos())
+	}
+	c.check(bad == nil, rule, fnName(fn)+":context-on-every-successful-path", pos,
+		"with an Async provider scheduled, every successful path leaves a context argument in injector.Args", "a success return is reachable without finding or adding the context")
+}
+
+func calleeIsFn(call *ssa.Call, f *ssa.Function) bool {
+	return f != nil && call.Common().StaticCallee() != nil && originOf(call.Common().StaticCallee()) == f
 }
